@@ -2,13 +2,19 @@ package main
 
 import (
 	"bytes"
+	"crypto/ecdsa"
+	"crypto/elliptic"
+	"crypto/rand"
+	"crypto/sha1"
 	"crypto/tls"
 	"crypto/x509"
+	"crypto/x509/pkix"
 	"encoding/json"
 	"encoding/pem"
 	"fmt"
 	"io"
 	"log"
+	"math/big"
 	"net"
 	"net/http"
 	"os"
@@ -38,10 +44,14 @@ import (
 type CACRL struct {
 	D1, D2 int // cache durations in seconds before and after the reload
 	Reload bool
+	// Bundle: the intermediate certificate file (`crt`) is a bundle: the issuing CA's certificate followed by the certificate of
+	// an upper intermediate CA that issued it (root -> upper -> issuing). The lists must still be the issuing CA's: its name as
+	// issuer, its key identifier as authority key identifier, its key under the signature.
+	Bundle bool
 }
 
 func runCACRL(cc *CACRL) (in, impl, want string) {
-	in = fmt.Sprintf("cacrl d1=%d d2=%d reload=%s", cc.D1, cc.D2, c.B(cc.Reload))
+	in = fmt.Sprintf("cacrl d1=%d d2=%d reload=%s bundle=%s", cc.D1, cc.D2, c.B(cc.Reload), c.B(cc.Bundle))
 	want = "ok"
 	// set-up failures of the stage itself (temp files, listeners, the CA's start-up on a loaded machine) are
 	// inconclusive; panics of request handlers are recovered by net/http and show up as a status
@@ -55,6 +65,26 @@ func runCACRL(cc *CACRL) (in, impl, want string) {
 	dir := must(os.MkdirTemp("", "verif-c08-ca-"))
 	defer os.RemoveAll(dir)
 	mca := must(minica.New(minica.WithName("VerifCRL")))
+	var anchors []*x509.Certificate // further certificates the harness's own TLS client trusts (the chain above the issuing CA)
+	interPEM := pem.EncodeToMemory(&pem.Block{Type: "CERTIFICATE", Bytes: mca.Intermediate.Raw})
+	if cc.Bundle {
+		// mca's intermediate becomes the upper CA; a third CA under it is the issuing one
+		upper, upperKey := mca.Intermediate, mca.Signer
+		key := must(ecdsa.GenerateKey(elliptic.P256(), rand.Reader))
+		ski := sha1.Sum(elliptic.Marshal(elliptic.P256(), key.X, key.Y))
+		tpl := &x509.Certificate{SerialNumber: big.NewInt(time.Now().UnixNano()), Subject: pkix.Name{CommonName: "VerifCRL Issuing CA"},
+			NotBefore: time.Now().Add(-time.Minute), NotAfter: time.Now().Add(24 * time.Hour), KeyUsage: x509.KeyUsageCertSign | x509.KeyUsageCRLSign,
+			BasicConstraintsValid: true, IsCA: true, MaxPathLenZero: true, SubjectKeyId: ski[:]}
+		// the upper CA of minica has path length 0: give the chain an upper CA that may have a subordinate
+		upTpl := &x509.Certificate{SerialNumber: big.NewInt(time.Now().UnixNano() + 1), Subject: pkix.Name{CommonName: "VerifCRL Upper CA"},
+			NotBefore: time.Now().Add(-time.Minute), NotAfter: time.Now().Add(24 * time.Hour), KeyUsage: x509.KeyUsageCertSign | x509.KeyUsageCRLSign,
+			BasicConstraintsValid: true, IsCA: true, MaxPathLen: 1, SubjectKeyId: upper.SubjectKeyId}
+		upper = must(x509.ParseCertificate(must(x509.CreateCertificate(rand.Reader, upTpl, mca.Root, upperKey.Public(), mca.RootSigner))))
+		issuing := must(x509.ParseCertificate(must(x509.CreateCertificate(rand.Reader, tpl, upper, &key.PublicKey, upperKey))))
+		anchors = append(anchors, upper, issuing)
+		mca = &minica.CA{Root: mca.Root, RootSigner: mca.RootSigner, Intermediate: issuing, Signer: key}
+		interPEM = append(pem.EncodeToMemory(&pem.Block{Type: "CERTIFICATE", Bytes: issuing.Raw}), pem.EncodeToMemory(&pem.Block{Type: "CERTIFICATE", Bytes: upper.Raw})...)
+	}
 	write := func(name string, data []byte) string {
 		p := filepath.Join(dir, name)
 		if err := os.WriteFile(p, data, 0o600); err != nil {
@@ -76,7 +106,7 @@ func runCACRL(cc *CACRL) (in, impl, want string) {
 	}
 	cfg := &config.Config{
 		Root:             []string{write("root.crt", pem.EncodeToMemory(&pem.Block{Type: "CERTIFICATE", Bytes: mca.Root.Raw}))},
-		IntermediateCert: write("intermediate.crt", pem.EncodeToMemory(&pem.Block{Type: "CERTIFICATE", Bytes: mca.Intermediate.Raw})),
+		IntermediateCert: write("intermediate.crt", interPEM),
 		IntermediateKey:  write("intermediate.key", pem.EncodeToMemory(must(pemutil.Serialize(mca.Signer)))),
 		Address:          addr,
 		InsecureAddress:  insecure,
@@ -97,6 +127,9 @@ func runCACRL(cc *CACRL) (in, impl, want string) {
 	defer theCA.Stop()
 	pool := x509.NewCertPool()
 	pool.AddCert(mca.Root)
+	for _, a := range anchors {
+		pool.AddCert(a)
+	}
 	client := &http.Client{Timeout: 30 * time.Second, Transport: &http.Transport{TLSClientConfig: &tls.Config{RootCAs: pool, ServerName: "127.0.0.1"}}}
 	defer client.CloseIdleConnections()
 	do := func(method, url string, body []byte) (int, http.Header, []byte) {
@@ -138,6 +171,12 @@ func runCACRL(cc *CACRL) (in, impl, want string) {
 			}
 			if rl.CheckSignatureFrom(mca.Intermediate) != nil {
 				problems = append(problems, when+"-BADSIG")
+			}
+			if !bytes.Equal(rl.RawIssuer, mca.Intermediate.RawSubject) {
+				problems = append(problems, when+"-ISSUER-is-not-the-issuing-CA:"+strings.ReplaceAll(rl.Issuer.CommonName, " ", "_"))
+			}
+			if !bytes.Equal(rl.AuthorityKeyId, mca.Intermediate.SubjectKeyId) {
+				problems = append(problems, when+"-AKI-is-not-the-issuing-CA-key")
 			}
 			if rl.NextUpdate.Sub(rl.ThisUpdate) != time.Duration(dur)*time.Second {
 				problems = append(problems, fmt.Sprintf("%s-interval-%v-instead-of-%ds", when, rl.NextUpdate.Sub(rl.ThisUpdate), dur))
